@@ -70,6 +70,8 @@ def generate(rng, tier, count):
     for i in range(count):
         if i % 3 != 2:
             yield gen_chunk(rng)
+        elif i % 4 == 1:
+            yield D.gen_shared(rng)
         else:
             yield D.gen_scenario(rng, kind="abm", run_weight=1.2)
 
